@@ -119,6 +119,13 @@ def gen_enum(e):
         w('\tvar d %s' % T)
         w('\tverifAssert(d.UnmarshalText([]byte("NOT_A_LABEL_OF_ANY_ENUM")) != nil, "C19/junk-rejected")')
         w('\tverifAssert(d.UnmarshalText([]byte("%s | NOT_A_LABEL")) != nil, "C19/junk-in-combination-rejected")' % (flags[0][0] if flags else 'X'))
+        w('\tverifAssert(d.UnmarshalText([]byte("")) != nil, "C19/empty-rejected")')
+        f0 = flags[0][0] if flags else '1'
+        w('\tverifAssert(d.UnmarshalText([]byte(" | ")) != nil, "C19/empty-segments-rejected")')
+        w('\tverifAssert(d.UnmarshalText([]byte("%s | ")) != nil, "C19/trailing-empty-segment-rejected")' % f0)
+        w('\tverifAssert(d.UnmarshalText([]byte(" | %s")) != nil, "C19/leading-empty-segment-rejected")' % f0)
+        w('\tverifAssert(d.UnmarshalText([]byte("%s |  | %s")) != nil, "C19/inner-empty-segment-rejected")' % (f0, f0))
+        w('\tverifAssert(d.UnmarshalText([]byte("%s|%s")) != nil, "C19/wrong-separator-rejected")' % (f0, f0))
         w('\tverifReach("EJ")')
         w('}')
         w('')
